@@ -77,13 +77,21 @@ struct Exact {
   void alloc(size_t n_) {
     n = n_;
     // size 0: a valid pointer one past an 8-byte block, so that touching even one byte trips ASan
+#ifdef VERIF_HARNESS_USES_NEW   // C19: malloc is wrapped for fault injection, the harness must not go through it
+    base = new uint8_t[n_ ? n_ : 8];
+#else
     base = (uint8_t *)malloc(n_ ? n_ : 8);
+#endif
     p = n_ ? base : base + 8;
   }
   explicit Exact(size_t n_) { alloc(n_); if (n_) memset(p, 0xA5, n_); }
   Exact(const uint8_t *src, size_t n_) { alloc(n_); if (n_) memcpy(p, src, n_); }
   explicit Exact(const std::vector<uint8_t> &v) : Exact(v.data(), v.size()) {}
+#ifdef VERIF_HARNESS_USES_NEW
+  ~Exact() { delete[] base; }
+#else
   ~Exact() { free(base); }
+#endif
   Exact(const Exact &) = delete;
   Exact &operator=(const Exact &) = delete;
   template <class T> T *as() { return (T *)p; }
